@@ -33,6 +33,10 @@ func NewRecorder() *Recorder { return &Recorder{Hdr: http.Header{}} }
 
 func (r *Recorder) Header() http.Header { return r.Hdr }
 func (r *Recorder) WriteHeader(code int) {
+	// net/http's own writers refuse codes outside 100..999 by panicking (checkWriteHeaderCode)
+	if code < 100 || code > 999 {
+		panic(fmt.Sprintf("invalid WriteHeader code %v", code))
+	}
 	r.HeaderCalls++
 	if r.Status == 0 {
 		r.Status = code
